@@ -84,6 +84,12 @@ NEEDS = {
  "C19-d": "a call with two or more arguments, an earlier argument of the wrong type and a later (extension) argument whose parameter type differs from the earlier parameter's (arguments are checked against parameters[accepted so far])",
  "C20-d": "a struct type with an attribute literally named name or methods (serde(flatten) on the attribute map collides with the struct's own keys; the stack no longer deserialises)",
  "C20-b": "a program with code after break / continue / return, whose error list is then serialised (serde(skip) on the three ForbiddenCodeAfter… kinds)",
+ "C01-e": "a struct type used in a signature whose attribute map disagrees with the registered declaration (or with the other side of a type comparison) only in an attribute's type: same struct name, same attribute names and order (hand-written PartialEq on StructTypes ignores attr_type)",
+ "C11-e": "a function whose nested returns all sit inside a top-level loop with no top-level if after that loop (function_body caches manual_return locally and refreshes it only after a top-level if)",
+ "C14-e": "a comparison condition whose left operand is struct-typed and whose right operand has a different type (both B9 clauses violated: the guard order decides the kind of the first error)",
+ "C15-e": "a function declaration that precedes a constant declaration in source order, both accepted (run() declares all constants before all functions: the global stack is no longer in source order)",
+ "C19-e": "a return directly in a loop body (not inside an if) whose expression contains an extension leaf or anything else that pushes instructions (the expression is analysed with the loop's parent block)",
+ "C20-e": "an if inside a loop whose loop-flavoured body has no break or continue at its top level (serde(untagged) on IfBodyStatements: the body deserialises as the If variant)",
 }
 def sh(cmd, **kw):
     return subprocess.run(cmd, shell=True, stdout=subprocess.PIPE, stderr=subprocess.STDOUT, text=True, **kw).stdout
